@@ -9,7 +9,6 @@ Section Bind.
 Variable value : Type.
 Variable is_none : value -> bool.
 Variable sg : signature value.
-Variable veq : value -> value -> bool.
 Hypothesis NV : s_varpos sg = false.      (* functions without *args *)
 
 Notation dict := (dict value).
@@ -47,14 +46,14 @@ Definition observe (mode : return_as) (r : dict) : final value :=
   match py_bind value sg pos kw with Ok b => FBody b | Raise e => FRaise e None end.
 
 Theorem run_ref : forall env (dc : deco value) is_async c,
-  run value is_none veq rcfg rr sg env dc is_async c =
+  run value is_none rcfg rr sg env dc is_async c =
   (fst (wc_ref value is_none sg env dc c),
    match snd (wc_ref value is_none sg env dc c) with
    | WOk r => observe (d_mode dc) r
    | WRaise e pn => FRaise e pn
    end).
 Proof.
-  intros. unfold run. rewrite (wrapper_content_ref value is_none sg env dc veq NV).
+  intros. unfold run. rewrite (wrapper_content_ref value is_none sg env dc NV).
   destruct (wc_ref value is_none sg env dc c) as [j [r|e pn]]; cbn [fst snd]; [|reflexivity].
   rewrite conv_ref. unfold observe. destruct (conv_m (d_mode dc) r) as [pos kw].
   destruct (py_bind value sg pos kw); [now rewrite NV | reflexivity].
